@@ -370,6 +370,18 @@ class SStr(Proxy):
             return not r
         return SBool(z3.Not(r.t))
 
+    # ordering: Python compares str / bytes by code point / byte value, lexicographically - SMT-LIB's str.< / str.<=
+    def _order(self, o, f):
+        z = self._other(o) if isinstance(o, (SStr, str, bytes, bytearray)) else None
+        if z is None:
+            return NotImplemented
+        return SBool(f(self.t, z))
+
+    def __lt__(self, o): return self._order(o, lambda a, b: a < b)
+    def __le__(self, o): return self._order(o, lambda a, b: a <= b)
+    def __gt__(self, o): return self._order(o, lambda a, b: b < a)
+    def __ge__(self, o): return self._order(o, lambda a, b: b <= a)
+
     def __bool__(self):
         return cx().branch(z3.Length(self.t) > 0)
 
